@@ -37,6 +37,8 @@ def rand_problem(rng):
                     else:
                         alts.append((name, False, []))
                 s["fields"][f].append(alts)
+    # the input order must not already be a build order: providers are as likely to come after their dependents
+    rng.shuffle(srcs)
     return srcs
 
 
@@ -49,6 +51,9 @@ def render_dep(rels, rng):
                 parts.append(name)
             else:
                 t = name
+                if rng.random() < 0.25:
+                    # a multiarch qualifier does not restrict the alternative (only a bracketed list does)
+                    t += rng.choice([b":native", b":any", b":i386", b":amd64", b":all"])
                 if rng.random() < 0.3:
                     t += b" (>= 1.0)"
                 if lst:
